@@ -209,6 +209,10 @@ def run_fn(case):
             n += 1
             try:
                 r = _derive(fn, s)
+            except AttributeError as e:
+                if "_generate_member_name" in str(e) or "NameSanitizer" in str(e):
+                    continue  # derivation function renamed/removed: nothing to judge (layer B still covers the namespace)
+                raise
             except Exception as e:  # totality
                 sig = f"C20|total|{fn}|raised {type(e).__name__}"
                 findings.setdefault(sig, f"{fn}({s!r}) raised {type(e).__name__}: {e}")
